@@ -31,7 +31,9 @@ TRUSTED = [
     "NOT modelled (C16/C14/C18 cover them); the oracle exercises them on the conforming bodies of this run",
     "reading the decode expression off the generated source with regular expressions (a reader bug shows as a mismatch)",
     "domain: parameter-less GET operations in one tag; component schemas Item, Cat, Color, Pet, Items, Names, Name, When, Count; "
-    "rendered types as listed in TYPE_POOL; ASCII type strings",
+    "rendered types as listed in TYPE_POOL; ASCII type strings; event streams are sent in 11 equally valid wire renderings "
+    "(space/no space after the colon, LF/CRLF, multi-line data, comments and event/id/retry fields, missing final blank line or "
+    "newline, 1/5/7-byte chunks), NDJSON in 4, binary in 2; stream payloads never begin with whitespace (F18b belongs to C18)",
 ]
 
 # ------------------------------------------------------------------ component schemas and the registry the model is given
@@ -201,13 +203,62 @@ def build_document(mod: list[list[dict]]) -> dict:
     return {"openapi": "3.0.3", "info": {"title": "T", "version": "1.0"}, "paths": paths, "components": {"schemas": COMPONENTS}}
 
 
-def body_bytes(e: dict | None) -> bytes:
+def _sse_wires() -> dict[str, tuple[bytes, int]]:
+    """equally valid wire renderings of the SAME two events (payloads never begin with whitespace: stripping of leading
+    payload whitespace is C18's F18b) -> (bytes, chunk size; 0 = one chunk)"""
+    j1, j2 = json.dumps(ITEM), json.dumps(ITEM2)
+    c1, c2 = json.dumps(ITEM, separators=(",", ":")), json.dumps(ITEM2, separators=(",", ":"))
+
+    def ev(lines: list[str], nl: str) -> str:
+        return "".join(l + nl for l in lines) + nl
+    w: dict[str, tuple[bytes, int]] = {}
+    w["sp_lf"] = (SSE_BODY, 0)
+    w["nosp_lf"] = ((ev([f"data:{c1}"], "\n") + ev([f"data:{c2}"], "\n")).encode(), 0)
+    w["sp_crlf"] = ((ev([f"data: {j1}"], "\r\n") + ev([f"data: {j2}"], "\r\n")).encode(), 0)
+    w["nosp_crlf"] = ((ev([f"data:{c1}"], "\r\n") + ev([f"data:{c2}"], "\r\n")).encode(), 0)
+    w["multiline"] = ((ev(['data: {"id": 1,', 'data: "name": "n"}'], "\n") + ev(['data:{"id": 2,', 'data:"name": "m"}'], "\n")).encode(), 0)
+    w["fields"] = ((": keepalive\n" + ev(["event: update", "id: 7", "retry: 100", f"data: {j1}"], "\n") + ":x\n\n"
+                    + ev(["id:8", "event:update", f"data:{c2}", ": trailing comment"], "\n")).encode(), 0)
+    w["no_final_blank"] = ((ev([f"data: {j1}"], "\n") + f"data:{c2}\n").encode(), 0)
+    w["no_final_newline"] = ((ev([f"data:{c1}"], "\n") + f"data: {j2}").encode(), 0)
+    w["chunk1"] = (w["nosp_crlf"][0], 1)
+    w["chunk7"] = (w["fields"][0], 7)
+    w["chunk5_sp"] = (SSE_BODY, 5)
+    return w
+
+
+SSE_WIRES = _sse_wires()
+NDJSON_WIRES: dict[str, tuple[bytes, int]] = {
+    "lf": (NDJSON_BODY, 0),
+    "no_final_newline": (NDJSON_BODY.rstrip(b"\n"), 0),
+    "crlf": (NDJSON_BODY.replace(b"\n", b"\r\n"), 0),
+    "compact_chunk3": (b'{"id":1,"name":"n"}\n{"id":2,"name":"m"}\n', 3),
+}
+BIN_WIRES: dict[str, tuple[bytes, int]] = {"whole": (BIN_BODY, 0), "chunk2": (BIN_BODY, 2)}
+
+
+def wires_of(e: dict | None) -> dict[str, tuple[bytes, int]] | None:
+    if e is None:
+        return None
+    b = e["body"]
+    return SSE_WIRES if "sse" in b else NDJSON_WIRES if "ndjson" in b else BIN_WIRES if "bin" in b else None
+
+
+def body_bytes(e: dict | None, wire: str | None = None) -> bytes:
     if e is None:
         return b""
     b = e["body"]
     if "json" in b:
         return json.dumps(b["json"]).encode()
-    return TEXT_BODY if "text" in b else BIN_BODY if "bin" in b else SSE_BODY if "sse" in b else NDJSON_BODY
+    ws = wires_of(e)
+    if ws is not None:
+        return ws[wire or next(iter(ws))][0]
+    return TEXT_BODY
+
+
+def chunk_of(e: dict | None, wire: str | None) -> int:
+    ws = wires_of(e)
+    return ws[wire or next(iter(ws))][1] if ws is not None else 0
 
 
 def declared_2xx(mod: list[list[dict]]) -> list[dict]:
@@ -219,7 +270,9 @@ def declared_2xx(mod: list[list[dict]]) -> list[dict]:
             if not (c.startswith("2") and (c.isdigit() and 200 <= int(c) <= 299 or c.upper() == "2XX")):
                 continue
             for ei in (range(len(r["content"])) if r["content"] else [None]):
-                out.append({"module": mod, "op": oi, "resp": ri, "entry": ei})
+                ws = wires_of(r["content"][ei]) if ei is not None else None
+                for wire in (ws if ws is not None else [None]):   # every equally valid wire rendering of a stream
+                    out.append({"module": mod, "op": oi, "resp": ri, "entry": ei, "wire": wire})
     return out
 
 
@@ -270,14 +323,23 @@ def tt(v):
 async def run(cm, cfgm, conv, calls):
     cur = {}
     def handler(req):
-        return httpx.Response(cur["st"], content=bytes.fromhex(cur["body"]),
+        body = bytes.fromhex(cur["body"])
+        if cur["chunk"]:
+            n = cur["chunk"]
+            async def chunks():
+                for i in range(0, len(body), n):
+                    yield body[i:i + n]
+            content = chunks()      # delivered at arbitrary byte boundaries
+        else:
+            content = body
+        return httpx.Response(cur["st"], content=content,
                               headers=({"content-type": cur["ct"]} if cur["ct"] else {}))
     api = cm.APIClient(cfgm.ClientConfig(base_url="http://srv.test"))
     await api.transport._client.aclose()
     api.transport._client = httpx.AsyncClient(base_url="http://srv.test", transport=httpx.MockTransport(handler))
     rows = []
-    for op_i, st, ct, body in calls:
-        cur.update(st=st, ct=ct, body=body)
+    for op_i, st, ct, body, chunk in calls:
+        cur.update(st=st, ct=ct, body=body, chunk=chunk)
         try:
             v = getattr(api.t, "op%d" % op_i)()
             if hasattr(v, "__aiter__"):
@@ -465,7 +527,7 @@ def oracle(inp: dict, run: list, annotation: str = "Any") -> list[str]:
         return [f"generator failed: {run[1][:120]}"]
     if run[0] == "import_error":
         return [f"generated package cannot be imported: {run[1][:120]}"]
-    what = f"{r['code']} {e['media'] if e else '(no content)'}"
+    what = f"{r['code']} {e['media'] if e else '(no content)'}" + (f" [wire syntax {inp['wire']}]" if inp.get("wire") else "")
     if run[0] == "exc":
         return [f"{what}: the call raised {run[1]}"]
     if e is None:
@@ -476,7 +538,7 @@ def oracle(inp: dict, run: list, annotation: str = "Any") -> list[str]:
             return [f"{what}: not an async iterator"]
         return [] if run[2] == [ITEM, ITEM2] else [f"{what}: stream yielded {len(run[2])} item(s), the server sent 2"]
     if "bin" in b:
-        sent = BIN_BODY.hex()
+        sent = body_bytes(e, inp.get("wire")).hex()
         if run[0] == "stream":
             ok = all(t == {"b": "bytes"} for t in run[1]) and "".join(x["$bytes"] for x in run[2]) == sent
             return [] if ok else [f"{what}: streamed chunks differ from the bytes sent"]
@@ -486,7 +548,7 @@ def oracle(inp: dict, run: list, annotation: str = "Any") -> list[str]:
     # JSON or text body
     if run[0] == "stream":
         # the response as a whole is a byte stream (another content type is binary): the bytes sent must come back
-        ok = "".join(x["$bytes"] for x in run[2] if isinstance(x, dict) and "$bytes" in x) == body_bytes(e).hex()
+        ok = "".join(x["$bytes"] for x in run[2] if isinstance(x, dict) and "$bytes" in x) == body_bytes(e, inp.get("wire")).hex()
         return [] if ok else [f"{what}: streamed chunks differ from the bytes sent"]
     fails = []
     if not same_instant(run[2], b["json"]):
@@ -681,7 +743,8 @@ def run_modules(mods: list[list[list[dict]]]) -> list[dict]:
                 r = mod[inp["op"]][inp["resp"]]
                 e = r["content"][inp["entry"]] if inp["entry"] is not None else None
                 st = int(r["code"]) if r["code"].isdigit() else 200
-                calls.append([inp["op"], st, e["media"] if e else None, body_bytes(e).hex()])
+                calls.append([inp["op"], st, e["media"] if e else None, body_bytes(e, inp.get("wire")).hex(),
+                              chunk_of(e, inp.get("wire"))])
             src = (root / pkg / "endpoints" / "t.py").read_text() if g.ok else ""
             jobs.append({"pkg": pkg, "mod": mod, "inputs": inputs, "calls": calls, "gen_error": None if g.ok else g.error, "src": src})
             gens.append(g)
@@ -725,7 +788,8 @@ def slim(inp: dict) -> dict:
 def main(chk: Check, replay: dict | None = None) -> int:
     if replay is not None:
         i = replay["input"]
-        cs = [c for c in run_modules([i["module"]]) if (c["input"]["op"], c["input"]["resp"], c["input"]["entry"]) == (i["op"], i["resp"], i["entry"])]
+        cs = [c for c in run_modules([i["module"]]) if (c["input"]["op"], c["input"]["resp"], c["input"]["entry"]) == (i["op"], i["resp"], i["entry"])
+              and c["input"].get("wire") == i.get("wire", c["input"].get("wire"))]
         print(json.dumps(cs[0]["obs"], indent=1))
         if cs[0]["oracle_fail"]:
             print(f"VIOLATION property=C05 replay=(replayed) : {cs[0]['oracle_fail']}")
@@ -749,7 +813,13 @@ def main(chk: Check, replay: dict | None = None) -> int:
         r = i["module"][i["op"]][i["resp"]]
         m = r["content"][i["entry"]]["media"] if i["entry"] is not None else "(none)"
         media[m] = media.get(m, 0) + 1
-    chk.cov["input_distribution"] = {"modules": len(mods), "operations": sum(len(m) for m in mods), "path/run": dist, "media": media,
+    wires: dict[str, int] = {}
+    for c in cases:
+        if c["input"].get("wire"):
+            i = c["input"]
+            m = i["module"][i["op"]][i["resp"]]["content"][i["entry"]]["media"]
+            wires[f"{m}:{i['wire']}"] = wires.get(f"{m}:{i['wire']}", 0) + 1
+    chk.cov["input_distribution"] = {"stream_wire_syntaxes": wires, "modules": len(mods), "operations": sum(len(m) for m in mods), "path/run": dist, "media": media,
                                      "secondary_2xx": sum(1 for c in cases if c["obs"]["path"][0] != "?" and len(
                                          [r for r in c["input"]["module"][c["input"]["op"]] if r["code"].startswith("2")]) > 1),
                                      "oracle_failures": sum(1 for c in cases if c["oracle_fail"])}
